@@ -654,6 +654,24 @@ impl RegexInternPool {
     }
 }
 
+#[cfg(feature = "verif")]
+impl RegexInternPool {
+    pub fn verif_lookup(&self, id: RegexId) -> &Regex {
+        self.lookup(id)
+    }
+
+    pub fn verif_len(&self) -> usize {
+        self.store.len()
+    }
+}
+
+#[cfg(feature = "verif")]
+impl RegexId {
+    pub fn verif_index(&self) -> usize {
+        self.0
+    }
+}
+
 #[derive(Debug, Clone)]
 pub struct Regex {
     pub root_id: RegexNodeId,
